@@ -468,6 +468,8 @@ type Kernel struct {
 	significant uint64
 	timeoutTask *Task
 	idleCycle   bool
+	nroots      int
+	rootIDs     map[string]string
 }
 
 var theKernel *Kernel
@@ -717,11 +719,19 @@ func (k *Kernel) insertTask(t *Task) {
 func (k *Kernel) Spawn(name string, fn func()) *Task {
 	t := &Task{k: k, label: name, wake: make(chan struct{}, 1), root: true}
 	t.depth = 1
-	t.path[0] = int32(len(k.tasks))
+	t.path[0] = int32(k.nroots)
+	k.nroots++
 	k.insertTask(t)
+	if k.rootIDs == nil {
+		k.rootIDs = map[string]string{}
+	}
+	k.rootIDs[name] = t.id
 	go t.run(fn)
 	return t
 }
+
+// RootID returns the task id of the root task spawned under the given name ("" if none).
+func (k *Kernel) RootID(name string) string { return k.rootIDs[name] }
 
 func (t *Task) run(fn func()) {
 	gid := register(t)
